@@ -192,7 +192,7 @@ def rand_field(rng, d, family=None):
     """Elevation field spec {k, m, e | base}.  Families exercise ties, plateaus, nested bowls,
     distinct values, negative levels, subnormal / huge scales and chains of adjacent doubles."""
     n = grid_size(d)
-    fam = family or rng.choice(["tied", "tied", "tied3", "distinct", "bowl", "neg", "sub", "huge", "ulp", "flat"])
+    fam = family or rng.choice(["tied", "tied", "tied3", "distinct", "bowl", "neg", "sub", "huge", "ulp", "flat", "cliff"])
     if fam == "tied":
         lv = rng.randint(2, 5)
         return dict(k="int", m=[rng.randrange(lv) for _ in range(n)], e=0)
@@ -226,6 +226,13 @@ def rand_field(rng, d, family=None):
                             seen.add(j)
                             nxt.append(j)
                 frontier, lvl = nxt, lvl + 1
+        return dict(k="int", m=m, e=0)
+    if fam == "cliff":
+        # gentle relief next to a few very high nodes: slope ratios of 1e-4 .. 1e-7 (weights that
+        # underflow to zero under a large slope exponent)
+        base = rng.choice([50000, 1000000, 20000000])
+        ph = rng.choice([0.15, 0.4, 0.6])
+        m = [(base + rng.randint(0, 3)) if rng.random() < ph else rng.randint(0, 4) for _ in range(n)]
         return dict(k="int", m=m, e=0)
     if fam == "neg":
         lv = rng.randint(2, 6)
